@@ -42,7 +42,26 @@ def main(run):
     res = chrun.run_conditions(run, TEMPLATE, subst, CONDITIONS, TWINS, 200 if quick else 900, PID, DESCRIBE)
     for fn, rec, ok in res:
         run.report(rec, ok)
+    # cache on == cache off. The drivers hand the per-series cache to every single run (encoded above); a single run with a
+    # cache equals the run without one iff a stored entry never answers a different request. That is the key-injectivity
+    # obligation of C15, decided here on the requests a series produces: same source shape / modes / precision / flags,
+    # any two sets of values (vertical grid, profiles, domain, measurement point, halo, background).
+    from . import C15
+
+    sks = [sk for sk in C15.skeletons("quick") if sk["shape"] == (4, 6) and sk["precision"] == "double" and not sk.get("halo_zero")]
+    if not quick:
+        sks = C15.skeletons("quick")
+    run.assumptions.append("cache part: assumptions of C15 part (a) (SHA-256 collision-free, tobytes = values)")
+    run.extra["cache_skeletons"] = len(sks)
+    cex = C15.part_a(run, sks=sks)
+    for c in cex[:4]:
+        r_ = C15.replay(c)
+        run.report(dict(c, property=PID, replay=r_, cmd="./check C14 --replay <this file>"), bool(r_.get("confirmed")))
 
 
 def replay(rec):
-    return chrun.replay_record(rec, os.path.join(HERE, "ch"))
+    if "call" in rec:
+        return chrun.replay_record(rec, os.path.join(HERE, "ch"))
+    from . import C15
+
+    return C15.replay(rec)
